@@ -305,6 +305,12 @@ Definition dt_new (isreq streamp : bool) : dt := mkDT isreq streamp true [] None
 
 Definition data_ev (isreq : bool) (e : env) (n : N) : bev := if isreq then BReqData e n else BRespData e n.
 
+(* traceMessageLocked: need := int(d.expecting - uint32(d.actual)), uint32 arithmetic.  Inside a message of a
+   well-formed body actual < expecting and this is the plain difference; but `actual` also counts the bytes of a
+   body that is not (yet) known to be a stream - response DATA arriving BEFORE the response HEADERS - and is not
+   reset when the HEADERS then announce a stream protocol: the subtraction wraps around, as in the code. *)
+Definition dt_need (d : dt) : N := (d_expect d + 4294967296 - d_actual d mod 4294967296) mod 4294967296.
+
 Definition dt_step (d : dt) (data : bytes) : dt * list bev * option bytes :=
   if d_expect d =? 0 then
     (* tracePrefixLocked *)
@@ -325,7 +331,7 @@ Definition dt_step (d : dt) (data : bytes) : dt * list bev * option bytes :=
     end
   else
     (* traceMessageLocked *)
-    match take (d_expect d - d_actual d) data with
+    match take (dt_need d) data with
     | (x, None) =>
       (mkDT (d_isreq d) (d_stream d) (d_hasb d) (d_prefix d) (d_env d) (d_expect d) (d_actual d + len x)
             (match d_end d with Some b => Some (b ++ x) | None => None end), [], None)
